@@ -80,7 +80,7 @@ local macro "tm_facts" h:ident : tactic => `(tactic| first
 theorem onLoop_step_lt (f : α → α → β) (ne : β → β → Bool) (p1 : Tm) (v1 : α) (c1 : Tm) (w1 : α) (r1 : ASig α)
     (p2 : Tm) (v2 : α) (c2 : Tm) (w2 : α) (r2 : ASig α) (out : ASig β) (last : Last β) (h1 : p1 < c1) (h2 : p2 < c2) (a : p1 < p2) :
     onLoop f ne ((p1, v1) :: (c1, w1) :: r1) ((p2, v2) :: (c2, w2) :: r2) out last =
-      if c1 < p2 then onLoop f ne ((c1, w1) :: r1) ((p2, v2) :: (c2, w2) :: r2) out .nan
+      if c1 < p2 then onLoop f ne ((c1, w1) :: r1) ((p2, v2) :: (c2, w2) :: r2) out .nil
       else if c1 = p2 then onLoop f ne ((c1, w1) :: r1) ((p2, v2) :: (c2, w2) :: r2) out (.item p2 (f w1 v2))
       else if c2 < p1 then onLoop f ne ((p1, v1) :: (c1, w1) :: r1) ((c2, w2) :: r2) out last
       else if c2 = p1 then onLoop f ne ((p1, v1) :: (c1, w1) :: r1) ((c2, w2) :: r2) out (.item c2 (f v1 w2))
@@ -107,7 +107,7 @@ theorem onLoop_step_lt (f : α → α → β) (ne : β → β → Bool) (p1 : Tm
 theorem onLoop_step_eq (f : α → α → β) (ne : β → β → Bool) (p1 : Tm) (v1 : α) (c1 : Tm) (w1 : α) (r1 : ASig α)
     (p2 : Tm) (v2 : α) (c2 : Tm) (w2 : α) (r2 : ASig α) (out : ASig β) (last : Last β) (h1 : p1 < c1) (h2 : p2 < c2) (a : p1 = p2) :
     onLoop f ne ((p1, v1) :: (c1, w1) :: r1) ((p2, v2) :: (c2, w2) :: r2) out last =
-      if c1 < p2 then onLoop f ne ((c1, w1) :: r1) ((p2, v2) :: (c2, w2) :: r2) out .nan
+      if c1 < p2 then onLoop f ne ((c1, w1) :: r1) ((p2, v2) :: (c2, w2) :: r2) out .nil
       else if c1 = p2 then onLoop f ne ((c1, w1) :: r1) ((p2, v2) :: (c2, w2) :: r2) out (.item p2 (f w1 v2))
       else if c2 < p1 then onLoop f ne ((p1, v1) :: (c1, w1) :: r1) ((c2, w2) :: r2) out last
       else if c2 = p1 then onLoop f ne ((p1, v1) :: (c1, w1) :: r1) ((c2, w2) :: r2) out (.item c2 (f v1 w2))
@@ -134,7 +134,7 @@ theorem onLoop_step_eq (f : α → α → β) (ne : β → β → Bool) (p1 : Tm
 theorem onLoop_step_gt (f : α → α → β) (ne : β → β → Bool) (p1 : Tm) (v1 : α) (c1 : Tm) (w1 : α) (r1 : ASig α)
     (p2 : Tm) (v2 : α) (c2 : Tm) (w2 : α) (r2 : ASig α) (out : ASig β) (last : Last β) (h1 : p1 < c1) (h2 : p2 < c2) (a : p2 < p1) :
     onLoop f ne ((p1, v1) :: (c1, w1) :: r1) ((p2, v2) :: (c2, w2) :: r2) out last =
-      if c1 < p2 then onLoop f ne ((c1, w1) :: r1) ((p2, v2) :: (c2, w2) :: r2) out .nan
+      if c1 < p2 then onLoop f ne ((c1, w1) :: r1) ((p2, v2) :: (c2, w2) :: r2) out .nil
       else if c1 = p2 then onLoop f ne ((c1, w1) :: r1) ((p2, v2) :: (c2, w2) :: r2) out (.item p2 (f w1 v2))
       else if c2 < p1 then onLoop f ne ((p1, v1) :: (c1, w1) :: r1) ((c2, w2) :: r2) out last
       else if c2 = p1 then onLoop f ne ((p1, v1) :: (c1, w1) :: r1) ((c2, w2) :: r2) out (.item c2 (f v1 w2))
@@ -161,7 +161,7 @@ theorem onLoop_step_gt (f : α → α → β) (ne : β → β → Bool) (p1 : Tm
 theorem onLoop_step (f : α → α → β) (ne : β → β → Bool) (p1 : Tm) (v1 : α) (c1 : Tm) (w1 : α) (r1 : ASig α)
     (p2 : Tm) (v2 : α) (c2 : Tm) (w2 : α) (r2 : ASig α) (out : ASig β) (last : Last β) (h1 : p1 < c1) (h2 : p2 < c2) :
     onLoop f ne ((p1, v1) :: (c1, w1) :: r1) ((p2, v2) :: (c2, w2) :: r2) out last =
-      if c1 < p2 then onLoop f ne ((c1, w1) :: r1) ((p2, v2) :: (c2, w2) :: r2) out .nan
+      if c1 < p2 then onLoop f ne ((c1, w1) :: r1) ((p2, v2) :: (c2, w2) :: r2) out .nil
       else if c1 = p2 then onLoop f ne ((c1, w1) :: r1) ((p2, v2) :: (c2, w2) :: r2) out (.item p2 (f w1 v2))
       else if c2 < p1 then onLoop f ne ((p1, v1) :: (c1, w1) :: r1) ((c2, w2) :: r2) out last
       else if c2 = p1 then onLoop f ne ((p1, v1) :: (c1, w1) :: r1) ((c2, w2) :: r2) out (.item c2 (f v1 w2))
